@@ -755,3 +755,41 @@ Definition lease_count (v : view) : option nat :=
   | VImm _ l => Some (length l)
   | _ => None
   end.
+
+(* -------- evaluation aid for the driver: states as finite tables ----------
+   The driver's workloads only name storage indexes 0..3 and share numbers 0..3.
+   A state restricted to that universe is a finite table; the driver names the
+   table after each operation once (`Eval vm_compute`) instead of re-running the
+   whole history inside every case term. *)
+Definition universe : list path :=
+  flat_map (fun si => flat_map (fun sh => [Incoming si sh; Final si sh]) [0; 1; 2; 3]) [0; 1; 2; 3].
+
+Definition snap (s : state) : list (path * file) :=
+  flat_map (fun p => match s p with Some f => [(p, f)] | None => [] end) universe.
+
+Fixpoint lookup_path (l : list (path * file)) (q : path) : option file :=
+  match l with
+  | [] => None
+  | (p, f) :: r => if path_eqb q p then Some f else lookup_path r q
+  end.
+
+Definition state_of_table (l : list (path * file)) : state := lookup_path l.
+
+(* the table after operation o in state s *)
+Definition step_table (s : state) (o : sop) : list (path * file) :=
+  snap (run_p (plain_ops o s) s).
+
+Definition check_ops_at (s : state) (o : sop) (log : list pop) : bool :=
+  pops_eqb (plain_ops o s) log.
+
+Definition check_states_at (s : state) (o : sop) (obs : list (nat * list (path * view))) : bool :=
+  let ops := plain_ops o s in
+  forallb (fun kv =>
+             let s' := recover (run_p (firstn (fst kv) ops) s) in
+             forallb (fun pv => view_eqb (view_of (s' (fst pv))) (snd pv)) (snd kv)) obs.
+
+Definition check_state_at (s : state) (o : sop) (k : nat) (obs : list (path * view)) : bool :=
+  check_states_at s o [(k, obs)].
+
+Definition check_window_at (s : state) (o : sop) (k : nat) : bool :=
+  in_window (firstn k (ops_of o s)).
